@@ -700,6 +700,11 @@ func (x *Ctx) floatRules(r *core.Result) {
 	e := r.Rule("R04e", "sibling scanners: every literal the RFC 8259 number grammar (= readFloat, R04d) accepts is accepted in full by (*decimal).set — otherwise the slow path would return a syntax error for a valid number")
 	x.setInclusion(r, e)
 	r.CheckFloor(e, 1)
+	g := r.Rule("R04g", "decimal point accounting in decimal.set: every trip round the digit loop that consumes a digit of the integer part (any digit trip not known to come after the '.', except leading zeros before anything is stored) moves the decimal point by exactly one — whether or not the digit fits into the 800-digit buffer")
+	hh := r.Rule("R04h", "exponent accumulation in decimal.set and readFloat does not saturate at a bound that is independent of the literal's length (the decimal point it is added to can be len(data) places away)")
+	x.decimalPointAccounting(r, g, hh)
+	r.CheckFloor(g, 1)
+	r.CheckFloor(hh, 1)
 	f := r.Rule("R04f", "the arithmetic ported from strconv (eiselLemire64, rightShift, leftShift, shouldRoundUp, prefixIsLessThan, RoundedInteger, Shift, trim, floatBits, atof64exact and what they call) is the same program as GOROOT's strconv: lockstep co-execution of the two SSA forms along every path — stores, calls, branches, loop heads and results line up and every compared term is equal (names, statement spelling, order of pure computations, if-chains vs switches and code moved into or out of private helpers do not matter)")
 	x.siblingRule(r, f)
 }
